@@ -802,9 +802,12 @@ func build(tier string) []*vexp.Scenario {
 	// hooks failing during restart
 	for _, h := range []string{"restarted-panic", "prelaunch-err", "prerestart-err"} {
 		for _, d := range []vivid.SupervisionDecision{vivid.SupervisionDecisionRestart, vivid.SupervisionDecisionGracefulRestart} {
-			p := base
-			p.dec, p.hook = d, h
-			add(p)
+			for _, all := range []bool{false, true} {
+				// one-for-all: the sibling b has no hooks of its own and must come back healthy whatever a's hooks do
+				p := base
+				p.dec, p.hook, p.all = d, h, all
+				add(p)
+			}
 		}
 	}
 	return out
